@@ -206,7 +206,7 @@ def lewis_sweep():
 def correspondence(pid, tier, seed):
     global ORC
     rng = random.Random(seed * 997 + 7)
-    n = 500 if tier == 'quick' else 6000
+    n = lib.size(500, 6000, tier)
     ORC = []
     cases = lewis_sweep()
     for _ in range(n):
